@@ -7,7 +7,10 @@ package c2
 // reads unexported items; no behaviour is re-implemented here.
 
 import (
+	"bytes"
 	"context"
+	"io"
+	"net"
 	"sort"
 	"time"
 
@@ -177,4 +180,149 @@ func VerifC15Drain(s *Session) []*com.Packet {
 		o = append(o, <-s.send)
 	}
 	return o
+}
+
+// ---- channel routing (conn.resolve with o = true, driven through the real channelRead)
+
+type verifC15Addr struct{}
+
+func (verifC15Addr) Network() string { return "verif" }
+func (verifC15Addr) String() string  { return "0" }
+
+// verifC15Conn is a read-only net.Conn fed with one marshaled Packet per send on 'in'.  A nil blob
+// is a marker: the reader loop takes it only when it asks for more data, i.e. once it has finished
+// everything sent before; closing 'in' ends the stream (io.EOF).
+type verifC15Conn struct {
+	in  chan []byte
+	buf []byte
+}
+
+func (c *verifC15Conn) Read(b []byte) (int, error) {
+	for len(c.buf) == 0 {
+		v, ok := <-c.in
+		if !ok {
+			return 0, io.EOF
+		}
+		c.buf = v
+	}
+	n := copy(b, c.buf)
+	c.buf = c.buf[n:]
+	return n, nil
+}
+func (*verifC15Conn) Write(b []byte) (int, error)      { return len(b), nil }
+func (*verifC15Conn) Close() error                     { return nil }
+func (*verifC15Conn) LocalAddr() net.Addr              { return verifC15Addr{} }
+func (*verifC15Conn) RemoteAddr() net.Addr             { return verifC15Addr{} }
+func (*verifC15Conn) SetDeadline(time.Time) error      { return nil }
+func (*verifC15Conn) SetReadDeadline(time.Time) error  { return nil }
+func (*verifC15Conn) SetWriteDeadline(time.Time) error { return nil }
+
+// VerifC15Chan is a Channel of a server-side Session: the state conn.start sets up, and the real
+// conn.channelRead running on a fake connection (channelWrite is not started, so that what lands in
+// the host's send queue stays there to be looked at).
+type VerifC15Chan struct {
+	c    *conn
+	x    *verifC15Conn
+	done chan struct{}
+	Host *Session
+}
+
+func VerifC15ChanOpen(l *Listener, s *Session) *VerifC15Chan {
+	h := &VerifC15Chan{c: &conn{host: s, keys: s.keys}, x: &verifC15Conn{in: make(chan []byte)}, done: make(chan struct{}), Host: s}
+	s.state.Set(stateChannel)
+	go func() {
+		h.c.channelRead(l.log, l, "0", h.x)
+		close(h.done)
+	}()
+	return h
+}
+
+// Feed hands one Channel Packet (a NoP of the host with this tag list) to the reader and returns
+// once it was processed; false: the reader has stopped (conn.stop was run).  Packet.Marshal refuses
+// a zero tag, so zero tags are written as a sentinel and patched in the bytes (the reader's
+// Unmarshal then fails with ErrMalformedTag, like for any peer that writes one).
+func (h *VerifC15Chan) Feed(d device.ID, tags []uint32) bool {
+	const sentinel = 0xFEEDFACE
+	var (
+		b bytes.Buffer
+		t = make([]uint32, len(tags))
+		z int
+	)
+	for i, v := range tags {
+		if t[i] = v; v == 0 {
+			t[i] = sentinel
+			z++
+		}
+	}
+	if err := (&com.Packet{Device: d, Tags: t}).Marshal(&b); err != nil {
+		panic(err)
+	}
+	o := b.Bytes()
+	for ; z > 0; z-- {
+		i := bytes.LastIndex(o, []byte{0xFE, 0xED, 0xFA, 0xCE})
+		if i < 0 {
+			panic("sentinel tag not found in the marshaled Packet")
+		}
+		o[i], o[i+1], o[i+2], o[i+3] = 0, 0, 0, 0
+	}
+	select {
+	case h.x.in <- o:
+	case <-h.done:
+		return false
+	}
+	select {
+	case h.x.in <- nil:
+		return true
+	case <-h.done:
+		return false
+	}
+}
+
+// Close ends the stream and waits for the reader (and its conn.stop).
+func (h *VerifC15Chan) Close() {
+	select {
+	case <-h.done:
+		return
+	default:
+	}
+	close(h.x.in)
+	<-h.done
+}
+
+// Subs lists the keys of conn.subs (ascending).
+func (h *VerifC15Chan) Subs() []uint32 {
+	r := make([]uint32, 0, len(h.c.subs))
+	for k := range h.c.subs {
+		r = append(r, k)
+	}
+	sort.Slice(r, func(i, j int) bool { return r[i] < r[j] })
+	return r
+}
+
+type VerifC15Route struct {
+	Key   uint32
+	ID    device.ID
+	Route uint32 // key of the Session whose send queue Session.chn is, 0: chn == nil, 0xFFFFFFFF: some other queue
+	Out   []*com.Packet
+}
+
+// VerifC15Routes lists Server.sessions by ascending key with the Channel redirection of each.
+func VerifC15Routes(srv *Server) []VerifC15Route {
+	srv.lock.RLock()
+	r := make([]VerifC15Route, 0, len(srv.sessions))
+	for k, s := range srv.sessions {
+		e := VerifC15Route{Key: k, ID: s.ID, Out: verifC15Snapshot(s.send)}
+		if s.chn != nil {
+			e.Route = 0xFFFFFFFF
+			for k2, s2 := range srv.sessions {
+				if s2.send == s.chn {
+					e.Route = k2
+				}
+			}
+		}
+		r = append(r, e)
+	}
+	srv.lock.RUnlock()
+	sort.Slice(r, func(i, j int) bool { return r[i].Key < r[j].Key })
+	return r
 }
